@@ -707,18 +707,31 @@ func RunSnapshots(w *World, idx int) {
 				s.Res = err.Error()
 			}
 			w.CheckSettled("snapshot-failure")
-		case 1: // set-checkpoint fails on one replica at the next recording
-			f := fs[r.Intn(len(fs))]
-			f.mu.Lock()
-			f.CpFail = true
-			f.mu.Unlock()
-			w.rec(Step{K: "snapshot", Note: "set-checkpoint fails on " + f.Addr})
+		case 1: // set-checkpoint fails on one (healthy, staying) replica at the next recording
+			if len(fs) < 2 {
+				break
+			}
 			w.C.Snapshot(fmt.Sprintf("x%d", snapNo))
 			snapNo++
-			// recording happens at membership events: trigger one
+			// recording happens when the volume is back at full strength: one leaves, a new one is rebuilt
 			g := fs[r.Intn(len(fs))]
 			w.Remove(g)
 			w.CheckSettled("remove")
+			if w.Dead {
+				return
+			}
+			var f *Fake
+			for _, c := range fs {
+				if c != g && (f == nil || r.Bool()) {
+					f = c
+				}
+			}
+			f.mu.Lock()
+			f.CpFail = true
+			f.mu.Unlock()
+			w.rec(Step{K: "next-set-checkpoint-fails", Addr: f.Addr})
+			w.Res.Count("set_checkpoint_failures_scripted", 1)
+			w.AddSynced(w.NewFake(1))
 			f.mu.Lock()
 			f.CpFail = false
 			f.mu.Unlock()
